@@ -74,12 +74,13 @@ func main() {
 	if *flags.EvalFlag != "" { // cmd line mode
 		t, err := parser.Parse(*flags.EvalFlag)
 
-		if err != nil {
+		if err != nil { // nothing of an input with a syntax error is run
 			fmt.Println(err)
+			return
 		}
 
-		if len(t) > 0 {
-			n := t[0]
+		for _, n := range t {
+			n = n.STRewrite(node.SymTbl{})
 			if err := node.ByteCode(n, cr); err != nil {
 				fmt.Println(err)
 				return
